@@ -17,6 +17,9 @@ Binding demonstration (selftest/mutations/C06/*.diff, each verified with selftes
   rcp(AffineSpaceT) translation sign; yaw/pitch/roll sign of one term; quaternion product two signs; orthogonal() without the
   mirror; row1() wrong component; AffineSpaceT operator* (a.p -> b.p).  Benign (exit 0): sin/cos and normalize reordered in rotate.
   With the one-line fix of AffineSpaceT::rotate(point, quaternion) (/repo 2231140) the probe build succeeds and its cases pass.
+  Non-lattice families (LinGeneral; caught ONLY there): slerp's linear fallback using the un-negated a for -0.99999 < dot < -0.9995,
+  rotate() with the wrong sine sign for 3.3 < angle < 4.1 rad, rotate() wrong for axes with 0.9 < |u.y| < 0.99, inverse() wrong for
+  |det| > 4.5, slerp wrong only off t = 0, 1/2, 1; one term of the y-largest quaternion branch that vanishes on the cube group.
   Trace corruption (one state field / one query result flipped, one event deleted) is rejected by LinTrace at that event."""
 import json, os, random, time
 from concurrent.futures import ThreadPoolExecutor
@@ -37,7 +40,16 @@ LEVEL_TEXT = ("TLC checks the laws of the LinAlgebra specification for every 2x2
               "QuaternionT for float, double and padded float vectors and compared with the exact integer expectation within 1e-4; results "
               "that are rational (inverse, rcp, xfmNormal for |det| > 1) or defined by laws (orthogonal, frame, lookat, slerp midpoint; rotations with rational matrices, which reach every term of every branch of the matrix-to-quaternion constructor) are "
               "recorded scaled by 2^14 and validated by TLC against the defining predicates; seeded random executions of a real affine map "
-              "object are validated by TLC against the trace specification")
+              "object are validated by TLC against the trace specification.  Beyond the lattice (code -> spec only, seeded random inputs): "
+              "rotate(u, a) for general unit axes and angles in [-2pi, 2pi] (dyadic multiples of 1/64 rad, tiny angles, angles next to "
+              "multiples of pi/2), its quaternion / matrix-from-quaternion / quaternion-from-matrix constructions (all four branches), slerp "
+              "for general unit quaternion pairs (nearly parallel and nearly antiparallel ones on both signs, obtuse, acute) at t = 0, 1/8, "
+              "1/4, 1/2, 3/4, 7/8, 1, and general 2x2 / 3x3 matrices K/8 (|K| <= 16) with condition number <= 64 are recorded scaled by 2^14 "
+              "and every record is decided by TLC with the polynomial laws of spec/math/LinGeneral.tla (orthonormality, det, fixed axis, "
+              "R(a)R(b) = R(a+b), R(-a) = R(a)^T, sense of rotation, Rodrigues anchors at multiples of pi/2, half-angle chains from 2uu^T - I, "
+              "q ~ -q, S_1/2^2 = A^T B, S_1/4^2 = S_1/2, S_3/4 = S_1/2 S_1/4, short arc, same axis, chord law for nearly parallel pairs, "
+              "K inverse(M) = 8 I, det(M) = Det(K)/8^n, det multiplicative, K^T xfmNormal = 8 v, rcp(A)A = id, (AB)p = A(Bp) = the exact "
+              "rational value)")
 LEVEL_NOTE = ("bounded and exact-arithmetic only: matrix entries in -1..1 (2x2 also -2..2), translations in -3..3, rotation axes = the 13 axes "
               "of the cube with angles that are multiples of the axis' own turn (pi/2, 2pi/3, pi) within [-2pi, 2pi], yaw/pitch/roll multiples "
               "of a quarter turn (convention recovered from the constructor's formula and frozen: q = q_y(yaw) q_x(pitch) q_z(roll)), slerp "
@@ -47,7 +59,9 @@ LEVEL_NOTE = ("bounded and exact-arithmetic only: matrix entries in -1..1 (2x2 a
               "the one its definition gives (U = Z x up, V = U x Z: a left-handed triple); orthogonal() is checked as the orthogonal polar "
               "factor.  AffineSpaceT::rotate(point, quaternion) could not be instantiated in the library as pinned (compile error, repaired): it is "
               "checked when the probe build succeeds, otherwise reported as a note.  2D rotate(point, angle) exists for float only.  "
-              "trusted: TLC, the driver's format conversions (round within 1e-4, scale by 2^14), std::sqrt for normalising input axes, g++")
+              "the non-lattice families are seeded samples judged by laws with tolerances of 4e-4 .. 4e-3 (re-scaled products of recorded "
+              "matrices accumulate rounding of the 2^-14 records), the condition filter is the sufficient bound |K|_F |Adj K|_F <= 64 |det K| "
+              "evaluated in exact integer arithmetic (records outside it are skipped and counted).  trusted: TLC, the driver's format conversions (round within 1e-4, scale by 2^14), std::sqrt for normalising input axes, g++")
 TECHNIQUE = ("TLA+ functional specification in exact integer arithmetic; laws model-checked by TLC over the complete bounded lattice and the "
              "rotation group TLC computes as a closure; constant-level case enumeration by TLC replayed on the real templates; TLC "
              "validation of recorded rational / law-defined results and of recorded random executions")
@@ -169,8 +183,13 @@ def build_drivers(chk):
 
 
 def model_check(chk):
-    r = tla.run_tlc(os.path.join(SPEC, "LinAlgebraMC.tla"), os.path.join(SPEC, "LinAlgebraMC.cfg"), workers=8 if chk.tier == "quick" else 12,
-                    timeout=3000, env={"C06_TIER": chk.tier}, tag="c06-mc")
+    for attempt in (1, 2):
+        r = tla.run_tlc(os.path.join(SPEC, "LinAlgebraMC.tla"), os.path.join(SPEC, "LinAlgebraMC.cfg"), workers=8 if chk.tier == "quick" else 12,
+                        timeout=3000, env={"C06_TIER": chk.tier}, tag="c06-mc", xmx="3g" if chk.tier == "quick" else "6g")
+        if r.ok or r.violated or r.error or attempt == 2:
+            break
+        # the JVM ended without a verdict (no violated property, no TLC error: e.g. it could not get its heap on a loaded machine)
+        chk.log("TLC LinAlgebraMC ended without a verdict (rc=%s); retrying once: %s" % (r.rc, r.out[-300:].replace("\n", " | ")))
     chk.require_model_ok("LinAlgebraMC/" + chk.tier, r, "laws of the matrix / affine / rotation-group / quaternion algebra")
     return r
 
@@ -341,6 +360,193 @@ def recorded_executions(chk, exe, variant, acts):
                                  meta={"variant": variant})
 
 
+
+# ---------------------------------------------------------------------------------------------
+# code -> spec: non-lattice families (spec/math/LinGeneral.tla) - seeded random inputs, every record decided by TLC
+# ---------------------------------------------------------------------------------------------
+GEN_OPS = ["GenRot", "GenHalf", "GenSlerp", "GenMat3", "GenMat2"]
+OPS_QUAT.add("GenSlerp")
+OPS_2D.add("GenMat2")
+TWO_PI = 6.283185307179586
+
+
+def _axis(rnd):
+    while True:
+        a = [rnd.randint(-16, 16) for _ in range(3)]
+        if sum(abs(x) for x in a) >= 3:
+            return a
+
+
+def _angle(rnd, kind):
+    """{q, n, den}: q * pi/2 + n / den with |n / den| <= 3/2."""
+    if kind == "tiny":
+        den = rnd.choice([4096, 65536])
+        return {"q": rnd.choice([0, 0, 2, -2, 4, -4]), "n": rnd.choice([-5, -1, 1, 3]), "den": den}
+    if kind == "near-pi":                                   # trace < 0: the non-trace branches of the matrix-to-quaternion constructor
+        return {"q": rnd.choice([2, -2]), "n": rnd.randint(-60, 60), "den": 64}
+    return {"q": rnd.randint(-4, 4), "n": rnd.randint(-96, 96), "den": 64}
+
+
+def _val(a):
+    return a["q"] * (TWO_PI / 4) + a["n"] / a["den"]
+
+
+def gen_rot_inputs(rnd, n):
+    out = []
+    while len(out) < n:
+        kind = rnd.choice(["general", "general", "near-pi", "near-pi", "tiny"])
+        a = _angle(rnd, kind)
+        if rnd.random() < 0.45:                             # a + b = an exact multiple of pi/2: the sum is anchored by Rodrigues' formula
+            b = {"q": rnd.randint(-4, 4), "n": -a["n"], "den": a["den"]}
+        else:
+            b = _angle(rnd, rnd.choice(["general", "near-pi", "tiny"]))
+            if b["den"] != a["den"] and rnd.random() < 0.5:
+                b = _angle(rnd, "general")
+        if max(abs(_val(a)), abs(_val(b)), abs(_val(a) + _val(b))) > TWO_PI:      # the stated quantifier: angles in [-2 pi, 2 pi]
+            continue
+        out.append({"a": "GenRot", "arg": {"axis": _axis(rnd), "a": a, "b": b}})
+    return out
+
+
+def gen_half_inputs(rnd, n):
+    return [{"a": "GenHalf", "arg": {"axis": _axis(rnd), "depth": 8}} for _ in range(n)]
+
+
+def gen_slerp_inputs(rnd, n):
+    out = []
+    while len(out) < n:
+        ha = [rnd.randint(-8, 8) for _ in range(4)]
+        if sum(x * x for x in ha) < 9:
+            continue
+        kind = rnd.choice(["near", "near", "near", "obtuse", "acute", "any"])
+        if kind == "near":                                  # angle between the 4-vectors about 0.002 .. 0.06, both signs of b
+            sg = rnd.choice([1, -1])
+            m = rnd.choice([1, 2, 4, 8])
+            hb = [sg * (32 * x + rnd.randint(-m, m)) for x in ha]
+            if hb == [sg * 32 * x for x in ha]:
+                continue
+        else:
+            hb = [rnd.randint(-8, 8) for _ in range(4)]
+            d = sum(x * y for x, y in zip(ha, hb))
+            if sum(x * x for x in hb) < 9 or (kind == "obtuse" and d >= 0) or (kind == "acute" and d <= 0):
+                continue
+        out.append({"a": "GenSlerp", "arg": {"ha": ha, "hb": hb, "ts": [0, 1, 2, 4, 6, 7, 8]}})
+    return out
+
+
+def _kmat(rnd, d):
+    k = [[rnd.randint(-16, 16) for _ in range(d)] for _ in range(d)]
+    if rnd.random() < 0.6:                                  # more well-conditioned ones: a dominant (signed, permuted) diagonal
+        perm = list(range(d))
+        rnd.shuffle(perm)
+        k = [[rnd.randint(-6, 6) for _ in range(d)] for _ in range(d)]
+        for i in range(d):
+            k[i][perm[i]] = rnd.choice([-1, 1]) * rnd.randint(9, 16)
+    return k
+
+
+def gen_mat_inputs(rnd, n, d):
+    out = []
+    for _ in range(n):
+        arg = {"ka": _kmat(rnd, d), "kb": _kmat(rnd, d)}
+        if d == 3:
+            arg.update({"pa": [rnd.randint(-16, 16) for _ in range(3)], "pb": [rnd.randint(-16, 16) for _ in range(3)],
+                        "vs": [[rnd.randint(-16, 16) for _ in range(3)] for _ in range(3)]})
+        out.append({"a": "GenMat%d" % d, "arg": arg})
+    return out
+
+
+def general_inputs(rnd, quick):
+    f = 1 if quick else 8
+    return (gen_rot_inputs(rnd, 140 * f) + gen_half_inputs(rnd, 12 * f) + gen_slerp_inputs(rnd, 160 * f)
+            + gen_mat_inputs(rnd, 120 * f, 3) + gen_mat_inputs(rnd, 80 * f, 2))
+
+
+GENERAL_GUARDS = {   # (operation, substring of the class) -> minimal number of records TLC judged "ok" or rejected (not skipped), per variant
+    ("GenRot", "branch=trace"): 10, ("GenRot", "branch=x-largest"): 5, ("GenRot", "branch=y-largest"): 5, ("GenRot", "branch=z-largest"): 5,
+    ("GenRot", "sum-anchored"): 20, ("GenRot", "sense-decided"): 40, ("GenRot", "tiny-angle"): 5, ("GenRot", "beyond-pi-or-near"): 20,
+    ("GenHalf", "all"): 8,
+    ("GenSlerp", "near-parallel"): 15, ("GenSlerp", "near-antiparallel"): 15, ("GenSlerp", "obtuse"): 15, ("GenSlerp", "acute"): 15,
+    ("GenMat3", "all"): 40, ("GenMat2", "all"): 25,
+}
+
+
+def validate_general(chk, exe, inputs, variant, tag, chunks=2):
+    """Evaluate the inputs on the real code, let TLC (LinGeneralValidate) decide every record.  Returns the class counts."""
+    cases = [c for c in inputs if not (variant == "fa" and c["a"] == "GenMat2")]
+    res, rc, stderr, wall = adt.run_driver(exe, [[c] for c in cases], "c06-gen-" + tag, meta={"variant": variant})
+    recs = []
+    for i, c in enumerate(cases):
+        r = res.get(i)
+        if r is None or not r.get("obs") or "nan" not in r["obs"][0]:
+            raise tla.InfraError("linalg driver gave no record for general case %d (rc=%s): %s %s" % (i, rc, r, stderr[-800:]))
+        recs.append({"id": i, "a": c["a"], "arg": c["arg"], "obs": r["obs"][0]})
+    d = os.path.join(tla.WORK, "run", "c06-gen-" + tag)
+    os.makedirs(d, exist_ok=True)
+    parts = [recs[k::chunks] for k in range(chunks) if recs[k::chunks]]
+
+    def one(k):
+        inp = os.path.join(d, "obs-%d-%d.ndjson" % (os.getpid(), k))
+        outp = os.path.join(d, "rej-%d-%d.ndjson" % (os.getpid(), k))
+        with open(inp, "w") as f:
+            for o in parts[k]:
+                f.write(json.dumps(o, separators=(",", ":")) + "\n")
+        for pth in (outp, outp + "-stats"):
+            if os.path.exists(pth):
+                os.remove(pth)
+        r = tla.run_tlc(os.path.join(SPEC, "LinGeneralValidate.tla"), os.path.join(SPEC, "LinGeneralValidate.cfg"), workers=1, timeout=3000,
+                        env={"C06_OBS": inp, "OUT": outp}, tag="c06-gen-%s-%d" % (tag, k), xmx="3g")
+        if not r.ok or "C06-GENERAL-VALIDATED" not in r.out:
+            raise tla.InfraError("LinGeneralValidate failed: violated=%s error=%s\n%s" % (r.violated, r.error, r.out[-2500:]))
+        rej, stats = [], []
+        for pth, dst in ((outp, rej), (outp + "-stats", stats)):
+            if os.path.exists(pth):
+                with open(pth) as f:
+                    dst.extend(json.loads(x) for x in f if x.strip())
+                os.remove(pth)
+        os.remove(inp)
+        return rej, stats
+
+    t0 = time.time()
+    with ThreadPoolExecutor(max_workers=chunks) as ex:
+        outs = list(ex.map(one, range(len(parts))))
+    rejected = [x for rej, _ in outs for x in rej]
+    counts = {}
+    for _, stats in outs:
+        for st in stats:
+            key = "%s|%s|%s" % (st["a"], st["cls"], st["verdict"])
+            counts[key] = counts.get(key, 0) + st["n"]
+    judged = sum(n for k, n in counts.items() if not k.split("|")[-1].startswith("skip:"))
+    skipped = sum(n for k, n in counts.items() if k.split("|")[-1].startswith("skip:"))
+    chk.cov["evaluations"] += len(cases)
+    chk.cov["traces_validated_against_impl"] += judged
+    chk.cov["distinct_nontrivial"] += len({json.dumps([c["a"], c["arg"]], sort_keys=True) for c in cases}) - skipped
+    chk.cov.setdefault("general_records_judged_by_tlc", 0)
+    chk.cov["general_records_judged_by_tlc"] += judged
+    chk.cov.setdefault("general_records_skipped_outside_quantifier", 0)
+    chk.cov["general_records_skipped_outside_quantifier"] += skipped
+    for c in cases:
+        chk.cov["action_counts"][c["a"]] = chk.cov["action_counts"].get(c["a"], 0) + 1
+    chk.log("%s: %d general (non-lattice) records judged by TLC (LinGeneralValidate), %d skipped (outside the quantifier), %d rejected, %.1fs"
+            % (variant, judged, skipped, len(rejected), time.time() - t0))
+    # vacuity guards on what TLC actually judged
+    for (op, sub), need in GENERAL_GUARDS.items():
+        if variant == "fa" and op == "GenMat2":
+            continue
+        have = sum(n for k, n in counts.items() if k.split("|")[0] == op and sub in k.split("|", 1)[1].rsplit("|", 1)[0]
+                   and not k.split("|")[-1].startswith("skip:"))
+        if have < need * (1 if chk.tier == "quick" else 4):
+            raise tla.InfraError("vacuity guard: only %d %s records of class %s were judged for variant %s (need %d)" % (have, op, sub, variant, need))
+    by_id = {r["id"]: r for r in recs}
+    for rj in rejected:
+        rec = by_id[rj["id"]]
+        fam = api(rec["a"], variant)
+        mm = {"action": rec["a"], "cls": rj.get("cls"), "field": "law/" + rj["reason"]}
+        what = "%s: %s(%s): recorded results rejected by LinGeneralValidate: %s" % (fam, rec["a"], json.dumps(rec["arg"])[:300], rj["reason"])
+        chk.violation(sig_of(fam, mm), what, {"kind": "general", "property": chk.pid, "variant": variant,
+                                               "case": {"a": rec["a"], "arg": rec["arg"]}, "observed": rec["obs"], "report": rj})
+    return counts
+
 # ---------------------------------------------------------------------------------------------
 def run(chk, replay=None):
     quick = chk.tier == "quick"
@@ -424,6 +630,10 @@ def run_cases(chk, rnd, quick, variants, level):
     for v in variants:
         vc = [c for c in val_cases if applicable(c, v, have_rpq)]
         fns.append(lambda sub, v=v, vc=vc: validate_records(sub, exe, vc, v, v, chunks=3 if quick else 6))
+    gen_inputs = general_inputs(rnd, quick)
+    gen_counts = {}
+    for v in variants:
+        fns.append(lambda sub, v=v: gen_counts.__setitem__(v, validate_general(sub, exe, gen_inputs, v, v, chunks=2 if quick else 6)))
     trace_acts = {}
     for v in variants:
         trace_acts[v] = [rand_execution(rnd, nlen, rots, unis, hur, have_rpq) for _ in range(nexec)]
@@ -434,6 +644,10 @@ def run_cases(chk, rnd, quick, variants, level):
     chk.require_actions(["validated:" + op for op in ("Inverse2", "Inverse3", "Xfm3", "AffXfm", "AffInv", "Aff2Pair", "Orthogonal2", "Frame",
                                                       "FrameUp", "Lookat", "Slerp", "QuatRat")])
     chk.require_actions(TRACE_OPS + (["TRotC"] if have_rpq else []))
+    chk.require_actions(GEN_OPS)
+    chk.cov["general_class_counts"] = gen_counts
+    chk.add_sample({"kind": "general-input", "case": next(c for c in gen_inputs if c["a"] == "GenSlerp" and abs(c["arg"]["hb"][0]) > 16)}, maxn=6)
+    chk.add_sample({"kind": "general-input", "case": next(c for c in gen_inputs if c["a"] == "GenRot")}, maxn=6)
     chk.add_sample({"kind": "case", "case": strip(next(c for c in cases if c["a"] == "QuatFromMat" and c["cls"] == "y-largest"))})
     chk.add_sample({"kind": "case", "case": strip(next(c for c in cases if c["a"] == "Xfm3" and c["cls"] == "unimodular"))})
     chk.add_sample({"kind": "validated-input", "case": strip(next(c for c in cases if c["a"] == "Lookat"))})
@@ -446,7 +660,9 @@ def run_cases(chk, rnd, quick, variants, level):
                        "counts within [-2pi, 2pi]; all 24 / 24x24 group elements for quaternion conversion / product / slerp; all 24x24 Hurwitz "
                        "unit pairs; yaw/pitch/roll quarter-turn triples; lattice normals / eye-target-up triples), evaluated per instantiation "
                        "(float, double, padded float); distinct = distinct (operation, arguments) per instantiation; non-trivial = not all "
-                       "matrix operands identity / zero and not a zero angle; exhaustive refers to this domain - the quick tier's thinning of the "
+                       "matrix operands identity / zero and not a zero angle; the non-lattice families (general axes / angles / quaternion pairs / "
+                       "matrices) are seeded random samples, each record judged by TLC, counted once per instantiation, skipped (ill-conditioned) "
+                       "records not counted; exhaustive refers to the lattice domain - the quick tier's thinning of the "
                        "3x3 lattice and the recorded random executions are samples of it / on top of it")
 
 
@@ -455,6 +671,9 @@ def do_replay(chk, path):
     exe, have_rpq = build_drivers(chk)
     if rep["kind"] == "history":
         adtcheck.replay(chk, exe, [rep["history"]], "replay", rep["sig_prefix"], meta=rep.get("meta"))
+    elif rep["kind"] == "general":
+        GENERAL_GUARDS.clear()
+        validate_general(chk, exe, [rep["case"]], rep["variant"], "replay", chunks=1)
     elif rep["kind"] == "validate":
         validate_records(chk, exe, [rep["case"]], rep["variant"], "replay", chunks=1)
     else:
